@@ -49,3 +49,4 @@ def rules(ctx):
     S.survey3_rules(ctx)
     S.round5_rules(ctx)
     S.handover_rules(ctx)
+    S.round6_rules(ctx)
